@@ -168,7 +168,7 @@ Qed.
 Ltac step_inv H :=
   match type of H with
   | step ?st ?e = Some _ =>
-      destruct e; cbn [step] in H;
+      tryif is_var e then destruct e else idtac; cbn [step] in H;
       repeat match type of H with
       | context [match s_phase ?s with _ => _ end] => let E := fresh "Eph" in destruct (s_phase s) eqn:E; try discriminate H
       | context [match s_dirty ?s with _ => _ end] => let E := fresh "Edirty" in destruct (s_dirty s) eqn:E; try discriminate H
@@ -178,28 +178,248 @@ Ltac step_inv H :=
       inversion H; subst; clear H
   end.
 
+Ltac split_upd :=
+  repeat first
+  [ progress cbn [mgrs shs set_sh set_both s_has s_phase s_dirty m_locked m_value m_old] in *
+  | match goal with
+    | H : context [upd _ ?k _ ?n] |- _ =>
+        lazymatch n with
+        | k => rewrite upd_same in H
+        | _ => destruct (Nat.eq_dec n k); [subst n; rewrite upd_same in H | rewrite (upd_other _ _ k _ n) in H by assumption]
+        end
+    | |- context [upd _ ?k _ ?n] =>
+        lazymatch n with
+        | k => rewrite upd_same
+        | _ => destruct (Nat.eq_dec n k); [subst n; rewrite upd_same | rewrite (upd_other _ _ k _ n) by assumption]
+        end
+    end ].
+
 Lemma sinv_step : forall st e st' out, SInv st -> step st e = Some (st', out) -> SInv st'.
 Proof.
   intros st e st' out I H.
   destruct I as [Iex Ihl Ihd Iid Ind Icl].
   unfold has, locked, dirty, ph, value, old in *.
-  step_inv H; constructor; unfold has, locked, dirty, ph, value, old; cbn [mgrs shs set_sh set_both s_has s_phase s_dirty m_locked m_value m_old];
-    intros;
-    repeat match goal with
-    | H : context [upd _ ?k _ ?n] |- _ =>
-        lazymatch n with k => rewrite upd_same in H | _ => destruct (Nat.eq_dec n k); [subst n; rewrite upd_same in H | rewrite (upd_other _ _ k _ n) in H by assumption] end
-    | |- context [upd _ ?k _ ?n] =>
-        lazymatch n with k => rewrite upd_same | _ => destruct (Nat.eq_dec n k); [subst n; rewrite upd_same | rewrite (upd_other _ _ k _ n) by assumption] end
-    end;
-    cbn [s_has s_phase s_dirty m_locked m_value m_old] in *;
+  step_inv H; constructor; unfold has, locked, dirty, ph, value, old; intros; split_upd;
     try discriminate; try congruence; eauto 3;
     try (apply add_In; eauto; fail);
     try (apply add_NoDup; eauto; fail);
     try (apply remove_NoDup; eauto; fail);
     try (constructor; fail).
-  all: try (match goal with H : s_phase _ = Idle |- _ => rewrite H in *; discriminate end).
   all: try (apply remove_In; split; [congruence|eauto]; fail).
-  all: try (exfalso; match goal with
-       | Hl : forall i v, s_has (shs st i) v = true -> m_locked (mgrs st v) = true, Hh : s_has (shs st ?j) ?v = true |- _ =>
-           pose proof (Hl _ _ Hh); apply orb_true_iff in Ec as [Ec|Ec]; [|apply negb_true_iff in Ec]; congruence end).
+  all: try (match goal with H : s_has (shs _ ?i) ?v = true |- In ?v [] =>
+              let X := fresh in pose proof (Ihd _ _ H) as X;
+              first [rewrite (Iid _ Eph) in X | rewrite Edirty in X]; exact X end).
+  all: try (match goal with H : s_has (shs _ _) _ = true, H' : s_has (shs _ _) _ = true |- _ =>
+              pose proof (Iex _ _ _ H H'); congruence end).
+  all: try (match goal with H : s_has (shs _ _) _ = true |- _ =>
+              let X := fresh in pose proof (Ihl _ _ H) as X; rewrite X in *; simpl in *; congruence end).
+Qed.
+
+Lemma sinv_run : forall evs st st' outs, SInv st -> run st evs = Some (st', outs) -> SInv st'.
+Proof.
+  induction evs as [|e evs IH]; simpl; intros st st' outs I H.
+  - inversion H; now subst.
+  - destruct (step st e) as [[st1 out]|] eqn:E; [|discriminate].
+    destruct (run st1 evs) as [[st2 outs2]|] eqn:E2; [|discriminate].
+    inversion H; subst. eapply IH; [|exact E2]. eapply sinv_step; eauto.
+Qed.
+
+Lemma sinv_reachable : forall init st, reachable init st -> SInv st.
+Proof. intros init st (evs & outs & H). eapply sinv_run; [apply sinv_init|exact H]. Qed.
+
+(* ------------------------------------------------------------------ frame: who acts *)
+
+Definition actor (e : event) : nat :=
+  match e with
+  | EBegin i | EAccess i _ _ | ETimeout i _ | ECommitStart i | EAbortStart i
+  | ECommitRelease i _ | EAbortRelease i _ | EEnd i | EGetState i _ => i
+  end.
+
+Lemma step_frame : forall st e st' out i,
+  step st e = Some (st', out) -> i <> actor e -> shs st' i = shs st i.
+Proof.
+  intros st e st' out i H Hn. step_inv H; cbn [actor] in Hn; cbn [shs set_sh set_both]; try reflexivity;
+    now rewrite upd_other by assumption.
+Qed.
+
+(* ------------------------------------------------------------------ strict two-phase locking *)
+
+Definition releasing (p : phase) : Prop := p = Committing \/ p = Aborting.
+
+Lemma releasing_step : forall st e st' out i,
+  step st e = Some (st', out) -> releasing (ph st i) -> e <> EEnd i -> releasing (ph st' i).
+Proof.
+  intros st e st' out i H Hr Hne. unfold ph in *.
+  destruct (Nat.eq_dec i (actor e)) as [Heq|Hn]; [|now rewrite (step_frame _ _ _ _ _ H Hn)].
+  destruct e; cbn [actor] in Heq; subst i;
+  step_inv H; cbn [shs set_sh set_both]; rewrite ?upd_same; cbn [s_phase];
+    try (destruct Hr as [Hr|Hr]; congruence); try (now left); try (now right); try assumption.
+Qed.
+
+Lemma access_needs_active : forall st i v a st' out,
+  step st (EAccess i v a) = Some (st', out) -> ph st i = Active.
+Proof. intros st i v a st' out H. unfold ph. step_inv H; auto. Qed.
+
+Lemma releasing_no_access : forall evs st st' outs i,
+  run st evs = Some (st', outs) -> releasing (ph st i) ->
+  forall q w a, nth_error evs q = Some (EAccess i w a) ->
+  exists r, r < q /\ nth_error evs r = Some (EEnd i).
+Proof.
+  induction evs as [|e evs IH]; intros st st' outs i H Hr q w a Hq.
+  - destruct q; discriminate.
+  - simpl in H. destruct (step st e) as [[st1 out]|] eqn:E; [|discriminate].
+    destruct (run st1 evs) as [[st2 outs2]|] eqn:E2; [|discriminate].
+    destruct q as [|q]; simpl in Hq.
+    + inversion Hq; subst. apply access_needs_active in E. destruct Hr as [Hr|Hr]; congruence.
+    + assert (Hdec : e = EEnd i \/ e <> EEnd i).
+      { destruct e; try (right; discriminate). destruct (Nat.eq_dec i0 i); [left; now subst|right; congruence]. }
+      destruct Hdec as [->|Hne]; [exists 0; split; [lia|reflexivity]|].
+      destruct (IH _ _ _ i E2 (releasing_step _ _ _ _ _ E Hr Hne) q w a Hq) as (r & Hlt & Hr').
+      exists (S r). split; [lia|exact Hr'].
+Qed.
+
+Lemma release_then_releasing : forall st e st' out i v,
+  step st e = Some (st', out) -> e = ECommitRelease i v \/ e = EAbortRelease i v -> releasing (ph st' i).
+Proof.
+  intros st e st' out i v H [-> | ->]; unfold ph; step_inv H; cbn [shs set_sh set_both]; rewrite upd_same; cbn [s_phase];
+    try (now left); now right.
+Qed.
+
+Lemma strict_2pl_lemma : forall init evs st outs p q i v w a,
+  run (init_state init) evs = Some (st, outs) -> p < q ->
+  nth_error evs p = Some (ECommitRelease i v) \/ nth_error evs p = Some (EAbortRelease i v) ->
+  nth_error evs q = Some (EAccess i w a) ->
+  exists r, p < r < q /\ nth_error evs r = Some (EEnd i).
+Proof.
+  intros init evs st outs p q i v w a H Hpq Hp Hq.
+  assert (Hp' : exists e, nth_error evs p = Some e /\ (e = ECommitRelease i v \/ e = EAbortRelease i v)).
+  { destruct Hp as [Hp|Hp]; eexists; split; eauto. }
+  destruct Hp' as (e & Hpe & He).
+  destruct (nth_error_split _ _ Hpe) as (l1 & l2 & -> & Hlen).
+  destruct (run_app_inv _ _ _ _ _ H) as (sta & o1 & o2 & H1 & H2 & _).
+  simpl in H2. destruct (step sta e) as [[stb out]|] eqn:E; [|discriminate].
+  destruct (run stb l2) as [[stc o3]|] eqn:E3; [|discriminate].
+  rewrite nth_error_app2 in Hq by lia. rewrite Hlen in Hq.
+  destruct (q - p) as [|k] eqn:Ek; [lia|]. simpl in Hq.
+  destruct (releasing_no_access _ _ _ _ i E3 (release_then_releasing _ _ _ _ _ _ E He) k w a Hq) as (r & Hlt & Hr).
+  exists (p + 1 + r). split; [lia|].
+  rewrite nth_error_app2 by lia. rewrite Hlen. replace (p + 1 + r - p) with (S r) by lia. exact Hr.
+Qed.
+
+(* a lock is taken only from the Active phase, given back only from Committing / Aborting *)
+Lemma acquire_release_phases : forall st e st' out i v,
+  step st e = Some (st', out) ->
+  (has st i v = false -> has st' i v = true -> ph st i = Active /\ exists a, e = EAccess i v a) /\
+  (has st i v = true -> has st' i v = false -> releasing (ph st i) /\ (e = ECommitRelease i v \/ e = EAbortRelease i v)).
+Proof.
+  intros st e st' out i v H. unfold has, ph.
+  destruct (Nat.eq_dec i (actor e)) as [Heq|Hn];
+    [|rewrite (step_frame _ _ _ _ _ H Hn); split; intros; congruence].
+  destruct e; cbn [actor] in Heq; subst i;
+  step_inv H; cbn [shs set_sh set_both]; rewrite ?upd_same; cbn [s_has];
+    split; intros Ha Hb; try congruence.
+  all: match goal with
+       | H : upd _ ?k _ ?n = _ |- _ =>
+           destruct (Nat.eq_dec n k); [subst; rewrite upd_same in H | rewrite upd_other in H by assumption; congruence]
+       end; try congruence.
+  all: try (split; [auto|eexists; reflexivity]); try (eexists; reflexivity).
+  all: split; [unfold releasing; auto | auto].
+Qed.
+
+(* while sharer i holds v nobody else can read, write, index or snapshot it *)
+Lemma isolation_lemma : forall init st i j v a,
+  reachable init st -> has st i v = true -> j <> i ->
+  step st (EAccess j v a) = None /\ step st (EGetState j v) = None.
+Proof.
+  intros init st i j v a R Hh Hn. pose proof (sinv_reachable _ _ R) as I.
+  assert (Hj : s_has (shs st j) v = false).
+  { destruct (s_has (shs st j) v) eqn:E; [|reflexivity]. exfalso. apply Hn. eapply si_excl; eauto. }
+  assert (Hl : m_locked (mgrs st v) = true) by (eapply si_haslock; eauto).
+  cbn [step]. rewrite Hj, Hl. simpl. split; [destruct (s_phase (shs st j)); reflexivity|reflexivity].
+Qed.
+
+(* ------------------------------------------------------------------ no deadlock *)
+
+Definition rel_ev (c : bool) (i v : nat) : event := if c then ECommitRelease i v else EAbortRelease i v.
+Definition rel_ph (c : bool) : phase := if c then Committing else Aborting.
+
+Lemma release_enabled : forall c st i v,
+  ph st i = rel_ph c -> In v (dirty st i) ->
+  exists st', step st (rel_ev c i v) = Some (st', None) /\ ph st' i = rel_ph c /\ dirty st' i = remove v (dirty st i).
+Proof.
+  intros c st i v Hp Hin. unfold ph, dirty in *. apply mem_In in Hin.
+  destruct c; cbn [rel_ev rel_ph] in *; destruct (s_has (shs st i) v) eqn:Eh;
+    eexists; (split; [cbn [step]; rewrite Hp, Hin, Eh; reflexivity|]); cbn [shs set_sh set_both]; rewrite upd_same; auto.
+Qed.
+
+Lemma end_enabled : forall c st i,
+  ph st i = rel_ph c -> dirty st i = [] ->
+  exists st', step st (EEnd i) = Some (st', None) /\ ph st' i = Idle /\ dirty st' i = [].
+Proof.
+  intros c st i Hp Hd. unfold ph, dirty in *.
+  exists (set_sh st i (mkSharer Idle [] (s_has (shs st i)))).
+  split; [cbn [step]; rewrite Hp, Hd; destruct c; reflexivity|]. cbn [shs set_sh]. rewrite upd_same. auto.
+Qed.
+
+Lemma release_all : forall c l st i,
+  ph st i = rel_ph c -> dirty st i = l -> NoDup l ->
+  exists st' outs, run st (map (rel_ev c i) l ++ [EEnd i]) = Some (st', outs) /\ ph st' i = Idle /\ dirty st' i = [].
+Proof.
+  induction l as [|v l IH]; intros st i Hp Hd Hnd.
+  - destruct (end_enabled c st i Hp Hd) as (st' & Hs & Hp' & Hd'). exists st', [None]. cbn [map app run]. rewrite Hs. auto.
+  - inversion Hnd as [|? ? Hv Hl]; subst.
+    destruct (release_enabled c st i v Hp) as (st1 & Hs & Hp1 & Hd1); [rewrite Hd; now left|].
+    rewrite Hd in Hd1. simpl in Hd1. rewrite Nat.eqb_refl in Hd1. rewrite remove_notin in Hd1 by assumption.
+    destruct (IH st1 i Hp1 Hd1 Hl) as (st2 & outs & Hr & Hp2 & Hd2).
+    exists st2, (None :: outs). cbn [map app run]. rewrite Hs, Hr. auto.
+Qed.
+
+Lemma no_deadlock_lemma : forall init st i v,
+  reachable init st -> blocked st i v = true ->
+  exists st1, step st (ETimeout i v) = Some (st1, None) /\
+  exists st2 outs, run st1 (map (EAbortRelease i) (dirty st1 i) ++ [EEnd i]) = Some (st2, outs) /\
+                   ph st2 i = Idle /\ forall w, has st2 i w = false.
+Proof.
+  intros init st i v R Hb. unfold blocked in Hb.
+  apply andb_true_iff in Hb as [Hb Hl]. apply andb_true_iff in Hb as [Hp Hh].
+  apply negb_true_iff in Hh.
+  assert (Hph : s_phase (shs st i) = Active) by (destruct (s_phase (shs st i)); simpl in Hp; congruence).
+  assert (Hs : step st (ETimeout i v) = Some (set_sh st i (mkSharer Aborting (add v (s_dirty (shs st i))) (s_has (shs st i))), None)).
+  { cbn [step]. now rewrite Hph, Hh. }
+  eexists. split; [exact Hs|].
+  pose proof (reachable_step _ _ _ _ _ R Hs) as R1.
+  set (st1 := set_sh st i _) in *.
+  destruct (release_all false (dirty st1 i) st1 i) as (st2 & outs & Hr & Hp2 & Hd2).
+  - unfold ph, st1. cbn [shs set_sh]. now rewrite upd_same.
+  - reflexivity.
+  - apply (si_nodup _ (sinv_reachable _ _ R1)).
+  - exists st2, outs. split; [exact Hr|]. split; [exact Hp2|].
+    intro w. pose proof (sinv_reachable _ _ (reachable_run _ _ _ _ _ R1 Hr)) as I2.
+    destruct (has st2 i w) eqn:E; [|reflexivity].
+    apply (si_hasdirty _ I2) in E. rewrite Hd2 in E. destruct E.
+Qed.
+
+(* any section can always be brought to its end by its own events alone, whatever the others do *)
+Lemma progress_lemma : forall init st i,
+  reachable init st -> ph st i <> Idle ->
+  exists evs st2 outs, Forall (fun e => actor e = i) evs /\ run st evs = Some (st2, outs) /\
+                       ph st2 i = Idle /\ forall w, has st2 i w = false.
+Proof.
+  intros init st i R Hp.
+  assert (Hrel : forall c st, reachable init st -> ph st i = rel_ph c ->
+            exists evs st2 outs, Forall (fun e => actor e = i) evs /\ run st evs = Some (st2, outs) /\
+                       ph st2 i = Idle /\ forall w, has st2 i w = false).
+  { intros c st0 R0 Hp0.
+    destruct (release_all c (dirty st0 i) st0 i Hp0 eq_refl (si_nodup _ (sinv_reachable _ _ R0) i)) as (st2 & outs & Hr & Hp2 & Hd2).
+    exists (map (rel_ev c i) (dirty st0 i) ++ [EEnd i]), st2, outs. split; [|split; [exact Hr|split; [exact Hp2|]]].
+    - apply Forall_app. split; [|repeat constructor]. apply Forall_map. apply Forall_forall. intros x _. destruct c; reflexivity.
+    - intro w. pose proof (sinv_reachable _ _ (reachable_run _ _ _ _ _ R0 Hr)) as I2.
+      destruct (has st2 i w) eqn:E; [|reflexivity]. apply (si_hasdirty _ I2) in E. rewrite Hd2 in E. destruct E. }
+  unfold ph in Hp. destruct (s_phase (shs st i)) eqn:E; [congruence| |apply (Hrel true st R E)|apply (Hrel false st R E)].
+  assert (Hs : step st (EAbortStart i) = Some (set_sh st i (mkSharer Aborting (s_dirty (shs st i)) (s_has (shs st i))), None)).
+  { cbn [step]. now rewrite E. }
+  destruct (Hrel false _ (reachable_step _ _ _ _ _ R Hs)) as (evs & st2 & outs & Hf & Hr & Hp2 & Hh).
+  { unfold ph. cbn [shs set_sh]. now rewrite upd_same. }
+  exists (EAbortStart i :: evs), st2, (None :: outs). split; [constructor; [reflexivity|exact Hf]|].
+  cbn [run]. rewrite Hs, Hr. auto.
 Qed.
